@@ -335,7 +335,54 @@ def c02(tier, seed):
     return out
 
 
+# ------------------------------------------------------------------------------------------------
+# C06
+# ------------------------------------------------------------------------------------------------
+
+C06_CLASSES = ["Independent", "Identity", "Negation", "And", "Or", "Le", "Lt", "Xor", "None"]
+
+
+def c06(tier, seed):
+    out = []
+    quick_dyn = sorted(set([1, 2, 6, 7, 8] + [[3, 4, 5][seed % 3]]))
+    for n in range(1, 13):
+        out.append(spec("verif_c06", "c06.rs", "c06_lemma_h", "c06_lemma_h_%d" % n, [n, T(n)], T(n) + 2,
+                        tier="quick" if n <= 8 else "thorough", n=n, fam="harness-oracle", mem=mem_for(n),
+                        timeout=900 if n <= 8 else 3000, optional=(n >= 11),
+                        covers={"reached": "SATISFIED", "in-word variable": "SATISFIED",
+                                "cross-word variable": "SATISFIED" if n >= 7 else "UNSAT"},
+                        what="lemma H n=%d: the harness's word-level cofactor tables C0, C1 satisfy C0(m) = f(m & ~(1<<v)), C1(m) = f(m | 1<<v) for symbolic f, v, m" % n))
+    for kind in ("s", "d"):
+        tname = "LutN" if kind == "s" else "Lut"
+        for n in range(1, 13):
+            fam = fam_name(kind, n)
+            q = (n <= 8) if kind == "s" else (n in quick_dyn)
+            covers = {"reached": "SATISFIED"}
+            for c in C06_CLASSES:
+                covers[c] = "SATISFIED" if (n >= 3 or (n == 2 and c != "None") or c in ("Independent", "Identity", "Negation")) else "UNSAT"
+            covers["cross-word variable"] = "SATISFIED" if n >= 7 else "UNSAT"
+            covers["strictly positive unate"] = "SATISFIED"
+            if n <= 10:
+                out.append(spec("verif_c06", "c06.rs", "c06_main", "c06_main_%s" % fam, [fam], T(n) + 2,
+                                tier="quick" if q else "thorough", n=n, fam=fam, mem=mem_for(n, 1.5),
+                                timeout=1200 if n <= 8 else 3000, optional=(n >= 10), covers=covers,
+                                what="%s n=%d: top_decomposition(v), is_pos_unate(v), is_neg_unate(v) EQUAL the class / facts derived from the cofactors by the property's priority order; symbolic table and v" % (tname, n)))
+            else:
+                for v in sorted(set([0, 5, 6, n - 1])):
+                    out.append(spec("verif_c06", "c06.rs", "c06_main_v", "c06_main_%s_v%d" % (fam, v), [fam, v], T(n) + 2,
+                                    tier="thorough", n=n, fam=fam, mem=mem_for(n), timeout=3000, optional=True,
+                                    covers={"reached": "SATISFIED", "None": "SATISFIED", "Xor": "SATISFIED"},
+                                    what="%s n=%d, concrete v=%d: classification equals the cofactor-derived class" % (tname, n, v)))
+    for n in (11, 12):
+        for v in sorted(set([0, 5, 6, n - 1])):
+            out.append(spec("verif_c06", "c06.rs", "c06_lemma_h_v", "c06_lemma_h_%d_v%d" % (n, v), [n, T(n), v], T(n) + 2,
+                            tier="thorough", n=n, fam="harness-oracle", mem=mem_for(n), timeout=3000, optional=True,
+                            what="lemma H n=%d, concrete v=%d" % (n, v)))
+    return out
+
+
 PROPS = {
+    "C06": c06,
     "C02": c02,
     "C17": c17,
     "C08": c08,
